@@ -815,6 +815,9 @@ func (s Source) GobEncode() ([]byte, error) {
 
 // Equals verifies if our receiver Object is equals with the "with" Object
 func (o Object) Equals(with Item) bool {
+	if IsNil(with) {
+		return false
+	}
 	if IsItemCollection(with) {
 		return false
 	}
